@@ -96,11 +96,12 @@ CHECKS = {
     ),
     "C10": dict(
         level="exploration",
-        technique="property-based testing (Hypothesis): generated counter-snapshot / call / cache_clear histories -> reference model of the wrap-offset rule",
+        technique="property-based testing (Hypothesis): generated counter-snapshot / call / cache_clear histories -> reference model of the wrap-offset rule; enumerated two-thread schedules under a sys.settrace scheduler",
         text=("Histories of raw counter changes (devices appear, vanish, reappear; fields grow, stay, drop), public calls of both functions in every per-device/total and nowrap form "
               "and cache_clear() calls run against the real parsers and wrap cache over simulated /proc files; every returned value is compared with a reference model of the statement "
-              "and checked for monotonicity. One recorded known finding (perdisk alternation) is excluded by construction. Sequential histories only: the two-thread quantifier is "
-              "not explored by this check. Search, not proof."),
+              "and checked for monotonicity. One recorded known finding (perdisk alternation) is excluded by construction. A second tier ENUMERATES every two-thread schedule "
+              "of the form (thread A runs k source lines, raw counters grow, thread B completes, A completes) with the vlib.detsched line-level scheduler and requires values that existed "
+              "during the calls and no inflation afterwards. Search, not proof, outside that schedule family."),
         note=("Trusted: vlib/simk.py file layer, c09 renderers. Presence of a device is observed at nowrap=True calls that return it."),
         design="DESIGN.md section 3 C10",
     ),
